@@ -25,7 +25,7 @@ REQUIRED = ["parse_sound", "last_member_decides", "lc_exact", "lc_exact_fails_wi
             "honest_compact_passes_framing", "decoder_alone_is_not_injective",
             "store_bytes_refine_graph_add", "hash_list_append_parses", "clock_shelf_decodes", "find_between_lc_reads_every_stored_tx",
             "range_scan_stops_at_a_gap", "counters_read_back", "fact_store_bodies", "fact_store_keys",
-            "new_transaction_sound", "signed_transaction_parses_back", "created_signed_parsed_admitted", "hex_round_trip", "fact_create_bodies"]
+            "new_transaction_sound", "signed_transaction_parses_back", "created_signed_parsed_admitted", "hex_round_trip", "fact_create_bodies", "json_branch_puts_no_demand_on_the_bytes"]
 
 HEX64 = re.compile(r"^[0-9a-fA-F]{64}$")
 
@@ -170,7 +170,10 @@ def run(ctx):
         "computed by the harness from what it signed), SHA-256 (refs and payload hashes supplied as data), base64 of PAL entries, go-did DID URL parsing, "
         "bbolt/go-stoabs: a write transaction is atomic and exclusive (RW lock), AfterCommit/OnRollback run after unlock",
         "model scope: network/dag parser.go (all steps), verifier.go, keys.go, state.go:Add/verifyTX, dag.go:add/addSingle/isPresent, payloadstore.go, "
-        "notifier.go:Save/Notify/notifyNow first delivery (finished / fatal receivers), network.go:CreateTransaction prevs+clock rule",
+        "notifier.go:Save/Notify/notifyNow first delivery (finished / fatal receivers), network.go:CreateTransaction prevs+clock rule; "
+        "deepening round: parser.go isJWSSerialization on raw bytes (+ base64.RawURLEncoding, unicode.IsSpace mirrored from the standard library), dag.go store bytes "
+        "(parseHashList/appendHashList/indexClockValue/getRoots/addSingle/add metadata/visitBetweenLC with go-stoabs Range(stopAtNil) written down), "
+        "transaction.go NewTransaction, signing.go Sign (header + re-parse; the JWS signature is crypto's)",
     ]
     ctx.assumptions += [
         "key resolution is a function of (kid, source transaction): the DID store's answer for a given source transaction does not change during one Add / one concurrent burst",
@@ -802,7 +805,11 @@ def run(ctx):
                        "random double mutations) -> ParseTransaction vs model on the decoded header; (2) admission: DAG histories of 20-60 offers on a real state "
                        "(bbolt) with valid (jwk- and kid-signed, branching, with/without payload, PAL) and single/double-defect transactions (22 defect kinds), re-adds, "
                        "re-offers after the missing prev arrived, a second state on the same DB; full observation after every op; (3) schedules: 8 scenario kinds x "
-                       "ALL interleavings of read-tx/write-tx steps (6 for 2 threads, 90 for 3) forced by a gating KVStore. distinct_nontrivial = distinct input byte strings offered")
+                       "ALL interleavings of read-tx/write-tx steps (6 for 2 threads, 90 for 3) forced by a gating KVStore; (4) byte-level re-framings of valid transactions and synthetic "
+                       "inputs (every trailing-bit variant / byte / Unicode white space) -> real isJWSSerialization + real base64 decoder vs model; (5) raw dumps of the bbolt clocks / "
+                       "documents / metadata shelves + real getRoots + real findBetweenLC ranges every 5th history step vs the byte-level store model; random hash-list bytes -> "
+                       "real parseHashList/appendHashList/bytesToClock; (6) real NewTransaction + real Sign (in-memory JWS signer) on hostile arguments vs model. "
+                       "distinct_nontrivial = distinct input byte strings offered")
     ctx.cov["input_distribution"] = {"ops": {k: v for k, v in sorted(stats.items())}, "mutation_classes": dict(notes.most_common(40)),
                                      "parse_unmodelled_framing": n_unmodelled, "framing_inputs": n_framing, "new_transaction_sign_calls": n_newtx, "new_transaction_outcomes": dict(newtx_classes), "raw_store_dumps": n_shelf, "range_scans": n_ranges, "hash_list_inputs": n_hashlist, "framing_classes": dict(fr_notes.most_common(40)), "schedules": n_sched, "schedule_scenarios": n_groups,
                                      "legs": dict(Counter(leg_of)), "transaction_lists(v2 handler)": n_list, "late_payloads(v2 handler)": n_late,
